@@ -1,6 +1,9 @@
 import LoraVerif.Model.Mac
 import LoraVerif.Lemmas.ExceptLemmas
 import LoraVerif.Lemmas.RtLemmas
+import LoraVerif.Model.History
+import LoraVerif.Lemmas.MacWFStep
+import LoraVerif.Lemmas.Accept
 /-!
 # C09 — every transmission uses an enabled in-band channel, a legal data rate and power
 
@@ -14,6 +17,16 @@ On the channel-plan model (`Model/Region.lean`, tables generated from the source
   (`ChanInv`: `init_chanInv`, `newChannel_chanInv`, `joinAccept_chanInv`, `dlChannel_chanInv`);
 * conducted power never exceeds the radio's maximum, the regional EIRP less antenna gain, nor the
   commanded level (`txPowerFor_le`, `send_power_limit`).
+Composed (on the MAC model, in every well-formed = every reachable state, `Lemmas/MacWF*.lean`):
+* `selectTxChannel_legal`: what `select_tx_channel` returns is legal in the plan it leaves;
+* `send_legal`: `Mac::send` ⇒ in-band frequency of a defined channel that is enabled in the plan the
+  selection ended with, bandwidth matching the channel, an uplink data rate of the region, power ≤
+  radio maximum, ≤ commanded level, ≤ regional EIRP − antenna gain (proving it exposed that the join
+  bias overrode the channel mask: repaired in the code, fix 89d4f41; regression example below);
+* `join_legal`: `Mac::join_otaa` ⇒ a join channel with the data rate it mandates, in band, same power limits;
+* `history_tx_legal`: by induction over `run`, every frame of every history satisfies these;
+* `select_accept_nonempty`: in every well-formed plan state the accept sets of the retry loops are
+  non-empty (a draw value exists on which selection returns at once).
 -/
 open Model Gen.Region Gen.Modulation
 
@@ -253,13 +266,556 @@ theorem send_power_limit (maxPower : Nat) (txPower : Option Nat) :
   | none => simp
   | some p => simp [Nat.min_le_right, Nat.min_le_left]
 
+/-- the channel a frame went out on, judged in the plan `rs'` the selection ended with -/
+def ChannelLegal (rs' : RegionState) (frame : FrameKind) (tx : TxChannel) : Prop :=
+  match rs'.plan with
+  | .dyn p => ∃ i c, p.channels[i]? = some (some c) ∧ tx.frequency = c.freq ∧
+      (match frame with
+       | .join => i < numJoinChannels rs'.id
+       | .data => p.mask.isEnabled i = .ok true)
+  | .fix p => ∃ ch f, ch < 72 ∧ (uplinkChannels rs'.id)[ch]? = some f ∧ tx.frequency = f.toNat ∧
+      tx.datarate.bandwidth = (if ch < 64 then Bandwidth._125KHz else Bandwidth._500KHz) ∧
+      (match frame with
+       | .join => tx.dr = (if ch < 64 then DR._0 else join500kDr rs'.id)
+       | .data => p.mask.isEnabled ch = .ok true)
+
+theorem fixed_bw_all : ∀ r ∈ [RegionId.US915, RegionId.AU915], ∀ dr ∈ List.range 15,
+    (match getDatarate r dr with
+     | some d => d.bandwidth == Bandwidth._125KHz || d.bandwidth == Bandwidth._500KHz
+     | none => true) = true := by decide
+
+theorem fixed_bw (r : RegionId) (hf : r.isFixed = true) (dr : Nat) (d : Datarate) (hg : getDatarate r dr = some d) :
+    d.bandwidth = Bandwidth._125KHz ∨ d.bandwidth = Bandwidth._500KHz := by
+  have hlt : dr < 15 := getDatarate_lt (by rw [hg]; rfl)
+  have hr : r ∈ [RegionId.US915, RegionId.AU915] := by cases r <;> simp [RegionId.isFixed] at hf <;> simp
+  have := fixed_bw_all r hr dr (List.mem_range.mpr hlt)
+  rw [hg] at this
+  simpa using this
+
+theorem joinDr_bw (r : RegionId) (hf : r.isFixed = true) :
+    (∃ d, getDatarate r DR._0.toInt.toNat = some d ∧ d.bandwidth = Bandwidth._125KHz) ∧
+    (∃ d, getDatarate r (join500kDr r).toInt.toNat = some d ∧ d.bandwidth = Bandwidth._500KHz) := by
+  cases r <;> simp [RegionId.isFixed] at hf
+  · exact ⟨⟨_, rfl, rfl⟩, ⟨_, rfl, rfl⟩⟩
+  · exact ⟨⟨_, rfl, rfl⟩, ⟨_, rfl, rfl⟩⟩
+
+theorem joinDr_uplink (r : RegionId) (hf : r.isFixed = true) :
+    isUplinkDatarate r DR._0.toInt.toNat = true ∧ isUplinkDatarate r (join500kDr r).toInt.toNat = true := by
+  cases r <;> simp [RegionId.isFixed] at hf <;> exact ⟨rfl, rfl⟩
+
+theorem getDatarate_of_index {r : RegionId} {dr : Nat} {o : Option Datarate} (h : indexDatarate r dr = .ok o) :
+    getDatarate r dr = o := by
+  unfold indexDatarate at h
+  unfold getDatarate
+  split at h
+  · cases h; rfl
+  · cases h
+
+theorem unwrap_ok {site : String} {o : Option Datarate} {d : Datarate} (h : unwrapDatarate site o = .ok d) : o = some d := by
+  cases o with
+  | none => cases h
+  | some d' => cases h; rfl
+
+/-- **what `select_tx_channel` returns is legal in the plan it leaves**: the data rate is the
+region's entry for `tx.dr`; the frequency is that of a defined channel — a join channel for a join
+request (fixed plans: with the data rate the channel mandates), an ENABLED channel of matching
+bandwidth for a data frame -/
+theorem selectTxChannel_legal {σ} (g : Rng σ) (rs rs' : RegionState) (dr : DR) (frame : FrameKind) (s s' : σ) (tx : TxChannel)
+    (h : regionWF rs = true) (hsel : selectTxChannel g rs dr frame s = .ok (tx, rs', s')) :
+    rs'.id = rs.id ∧ getDatarate rs.id tx.dr.toInt.toNat = some tx.datarate ∧ ChannelLegal rs' frame tx ∧
+      (isUplinkDatarate rs.id dr.toInt.toNat = true → isUplinkDatarate rs.id tx.dr.toInt.toNat = true) := by
+  unfold selectTxChannel at hsel
+  cases hp : rs.plan with
+  | dyn p =>
+    simp only [hp] at hsel
+    obtain ⟨drv, hdrv, hsel⟩ := Except.bind_eq_ok hsel
+    have hg := getDatarate_of_index hdrv
+    cases frame with
+    | join =>
+      simp only at hsel
+      obtain ⟨⟨idx, s1⟩, hloop, hsel⟩ := Except.bind_eq_ok hsel
+      have hidx := dynJoinLoop_sound g _ _ s idx s1 hloop
+      simp only at hsel
+      split at hsel
+      · rename_i c hc
+        obtain ⟨d, hd, hsel⟩ := Except.bind_eq_ok hsel
+        cases Except.pure_eq_ok hsel
+        have := unwrap_ok hd
+        subst this
+        refine ⟨rfl, hg, ?_, fun hu => hu⟩
+        unfold ChannelLegal
+        simp only [hp]
+        exact ⟨idx, c, hc, rfl, hidx⟩
+      · cases hsel
+    | data =>
+      simp only at hsel
+      obtain ⟨usableAny, _, hsel⟩ := Except.bind_eq_ok hsel
+      obtain ⟨p', _, hsel⟩ := Except.bind_eq_ok hsel
+      obtain ⟨⟨c, s1⟩, hloop, hsel⟩ := Except.bind_eq_ok hsel
+      obtain ⟨d, hd, hsel⟩ := Except.bind_eq_ok hsel
+      cases Except.pure_eq_ok hsel
+      have := unwrap_ok hd
+      subst this
+      obtain ⟨i, hu⟩ := dynDataLoop_sound g p' _ s c s1 hloop
+      obtain ⟨hen, hch⟩ := usable_spec p' i c hu
+      refine ⟨rfl, hg, ?_, fun hu => hu⟩
+      unfold ChannelLegal
+      simp only
+      exact ⟨i, c, hch, rfl, hen⟩
+  | fix p =>
+    obtain ⟨hfx, hm, hjc⟩ := (regionWF_fix hp).mp h
+    simp only [hp] at hsel
+    obtain ⟨⟨dr', ch, jc', mask', s1⟩, hfirst, hsel1⟩ := Except.bind_eq_ok hsel
+    clear hsel
+    simp only at hsel1
+    obtain ⟨o, hidx, hsel2⟩ := Except.bind_eq_ok hsel1
+    clear hsel1
+    obtain ⟨d, hd, hsel3⟩ := Except.bind_eq_ok hsel2
+    clear hsel2
+    have := unwrap_ok hd
+    subst this
+    clear hd
+    have hg := getDatarate_of_index hidx
+    clear hidx
+    have hF : d.bandwidth = (if ch < 64 then Bandwidth._125KHz else Bandwidth._500KHz) ∧
+        (frame = .join → dr' = (if ch < 64 then DR._0 else join500kDr rs.id)) ∧
+        (frame = .data → mask'.isEnabled ch = .ok true) ∧
+        (isUplinkDatarate rs.id dr.toInt.toNat = true → isUplinkDatarate rs.id dr'.toInt.toNat = true) := by
+      clear hsel3
+      have hjoin : ∀ (x : Nat × JoinChannels × σ),
+          (pure (if x.1 < 64 then DR._0 else join500kDr rs.id, x.1, x.2.1, p.mask, x.2.2) : M (DR × Nat × JoinChannels × Mask × σ)) =
+            .ok (dr', ch, jc', mask', s1) →
+          d.bandwidth = (if ch < 64 then Bandwidth._125KHz else Bandwidth._500KHz) ∧
+            dr' = (if ch < 64 then DR._0 else join500kDr rs.id) ∧ isUplinkDatarate rs.id dr'.toInt.toNat = true := by
+        intro x hx
+        have := Except.pure_eq_ok hx
+        simp only [Prod.mk.injEq] at this
+        obtain ⟨e1, e2, _, _, _⟩ := this
+        subst e2
+        subst e1
+        refine ⟨?_, rfl, ?_⟩
+        rotate_left
+        · have := joinDr_uplink rs.id hfx
+          split
+          · exact this.1
+          · exact this.2
+        obtain ⟨⟨d0, hd0, hb0⟩, ⟨d5, hd5, hb5⟩⟩ := joinDr_bw rs.id hfx
+        split
+        · rename_i hlt
+          simp only [hlt, if_true] at hg
+          rw [hd0] at hg; cases hg; exact hb0
+        · rename_i hlt
+          simp only [hlt, if_false] at hg
+          rw [hd5] at hg; cases hg; exact hb5
+      cases frame with
+      | join =>
+        simp only at hfirst
+        obtain ⟨x, _, hx⟩ := Except.bind_eq_ok hfirst
+        exact ⟨(hjoin x hx).1, fun _ => (hjoin x hx).2.1, fun e => (by cases e), fun _ => (hjoin x hx).2.2⟩
+      | data =>
+        simp only at hfirst
+        obtain ⟨⟨biased, jc0, s0⟩, hb, hf0⟩ := Except.bind_eq_ok hfirst
+        clear hfirst
+        have hpre : jcWF jc0 = true ∧ ∀ ch0, biased = some ch0 → p.mask.isEnabled ch0 = .ok true := by
+          by_cases hbias : p.jc.hasBiasAndNotExhausted = true
+          · simp only [hbias, if_true] at hb
+            obtain ⟨⟨c0, j0, t0⟩, hgn, hb1⟩ := Except.bind_eq_ok hb
+            obtain ⟨en, hen, hb2⟩ := Except.bind_eq_ok hb1
+            have := Except.pure_eq_ok hb2
+            simp only [Prod.mk.injEq] at this
+            obtain ⟨e1, e2, _⟩ := this
+            subst e2
+            refine ⟨((getNextChannel_safe g p.jc s hjc).elim hgn).2, fun ch0 e0 => ?_⟩
+            rw [← e1] at e0
+            cases en
+            · simp at e0
+            · simp only [if_true, Option.some.injEq] at e0; subst e0; exact hen
+          · simp only [hbias, Bool.false_eq_true, if_false] at hb
+            have := Except.pure_eq_ok hb
+            simp only [Prod.mk.injEq] at this
+            obtain ⟨e1, e2, _⟩ := this
+            subst e1; subst e2
+            exact ⟨hjc, fun ch0 e0 => by cases e0⟩
+        cases biased with
+        | some ch0 =>
+          simp only at hf0
+          have hj := hjoin (ch0, jc0, s0) hf0
+          have := Except.pure_eq_ok hf0
+          simp only [Prod.mk.injEq] at this
+          obtain ⟨_, e2, _, e4, _⟩ := this
+          refine ⟨hj.1, (fun e => by cases e), fun _ => ?_, fun _ => hj.2.2⟩
+          rw [← e2, ← e4]; exact hpre.2 ch0 rfl
+        | none =>
+          simp only at hf0
+          obtain ⟨o0, hidx0, hf1⟩ := Except.bind_eq_ok hf0
+          clear hf0
+          obtain ⟨d0, hd0, hf2⟩ := Except.bind_eq_ok hf1
+          clear hf1
+          have := unwrap_ok hd0
+          subst this
+          clear hd0
+          have hg0 := getDatarate_of_index hidx0
+          clear hidx0
+          obtain ⟨hfd1, hfd2⟩ := firstDataChannel_wf g jc0 s0 hpre.1
+          generalize JoinChannels.firstDataChannel g jc0 s0 = fd at hfd1 hfd2 hf2
+          obtain ⟨pref, jcf, sf⟩ := fd
+          simp only at hfd1 hfd2 hf2
+          obtain ⟨usePref, hup, hf3⟩ := Except.bind_eq_ok hf2
+          clear hf2
+          refine ⟨?_, (fun e => by cases e), fun _ => ?_, ?_⟩
+          all_goals
+            split at hf3
+            · rename_i chp
+              have := Except.pure_eq_ok hf3
+              simp only [Prod.mk.injEq] at this
+              obtain ⟨e1, e2, _, e4, _⟩ := this
+              subst e1; subst e2; subst e4
+              simp only at hup
+              obtain ⟨en, hen, hup2⟩ := Except.bind_eq_ok hup
+              have hup' := Except.pure_eq_ok hup2
+              simp only [Bool.and_eq_true, beq_iff_eq] at hup'
+              obtain ⟨hen', hbw⟩ := hup'
+              subst hen'
+              have hlt := hfd2 chp rfl
+              rw [hg0] at hg; cases hg
+              first
+                | (simp only [hlt, if_true]; exact hbw)
+                | exact hen
+                | exact fun hu => hu
+            · split at hf3
+              · rename_i hbw
+                obtain ⟨any500, _, hf4⟩ := Except.bind_eq_ok hf3
+                obtain ⟨mk, _, hf5⟩ := Except.bind_eq_ok hf4
+                obtain ⟨⟨c1, s2⟩, hloop, hf6⟩ := Except.bind_eq_ok hf5
+                have := Except.pure_eq_ok hf6
+                simp only [Prod.mk.injEq] at this
+                obtain ⟨e1, e2, _, e4, _⟩ := this
+                subst e1; subst e2; subst e4
+                obtain ⟨h1, h2, h3⟩ := fixedMaskLoop_sound g mk 8 64 _ sf c1 s2 (by decide) hloop
+                rw [hg0] at hg; cases hg
+                have hnl : ¬ c1 < 64 := by omega
+                first
+                  | (simp only [hnl, if_false]; simpa using hbw)
+                  | exact h3
+                  | exact fun hu => hu
+              · rename_i hbw
+                obtain ⟨any125, _, hf4⟩ := Except.bind_eq_ok hf3
+                obtain ⟨mk, _, hf5⟩ := Except.bind_eq_ok hf4
+                obtain ⟨⟨c1, s2⟩, hloop, hf6⟩ := Except.bind_eq_ok hf5
+                have := Except.pure_eq_ok hf6
+                simp only [Prod.mk.injEq] at this
+                obtain ⟨e1, e2, _, e4, _⟩ := this
+                subst e1; subst e2; subst e4
+                obtain ⟨h1, h2, h3⟩ := fixedMaskLoop_sound g mk 64 0 _ sf c1 s2 (by decide) hloop
+                rw [hg0] at hg; cases hg
+                have hl : c1 < 64 := by omega
+                first
+                  | exact h3
+                  | exact fun hu => hu
+                  | (simp only [hl, if_true]
+                     rcases fixed_bw rs.id hfx _ _ hg0 with hb | hb
+                     · exact hb
+                     · rw [hb] at hbw; simp at hbw)
+    split at hsel3
+    · rename_i f f1 hf hf1
+      cases Except.pure_eq_ok hsel3
+      refine ⟨rfl, hg, ?_, hF.2.2.2⟩
+      unfold ChannelLegal
+      simp only
+      have hch : ch < 72 := by
+        have := (List.getElem?_eq_some_iff.mp hf).1
+        rw [uplinkChannels_length] at this; exact this
+      refine ⟨ch, f, hch, hf, rfl, hF.1, ?_⟩
+      cases frame with
+      | join => exact hF.2.1 rfl
+      | data => exact hF.2.2.1 rfl
+    · cases hsel3
+
+theorem fixed_in_band_all : ∀ r ∈ [RegionId.US915, RegionId.AU915], ∀ ch ∈ List.range 72,
+    (match (uplinkChannels r)[ch]? with
+     | some f => frequencyValid r f.toNat
+     | none => false) = true := by decide
+
+/-- a legal channel of a well-formed plan lies inside the region's band -/
+theorem legal_in_band (rs' : RegionState) (frame : FrameKind) (tx : TxChannel) (h : regionWF rs' = true)
+    (hl : ChannelLegal rs' frame tx) : frequencyValid rs'.id tx.frequency = true := by
+  unfold ChannelLegal at hl
+  cases hp : rs'.plan with
+  | dyn p =>
+    simp only [hp] at hl
+    obtain ⟨i, c, hc, hf, _⟩ := hl
+    obtain ⟨_, _, _, hib⟩ := dynWF_iff.mp ((regionWF_dyn hp).mp h).2
+    have := all_getElem? _ _ _ _ hib hc
+    rw [hf]; exact this
+  | fix p =>
+    simp only [hp] at hl
+    obtain ⟨ch, f, hch, hf, hfr, _⟩ := hl
+    have hfx := ((regionWF_fix hp).mp h).1
+    have hr : rs'.id ∈ [RegionId.US915, RegionId.AU915] := by
+      cases hid : rs'.id <;> simp [hid, RegionId.isFixed] at hfx <;> simp
+    have := fixed_in_band_all rs'.id hr ch (List.mem_range.mpr hch)
+    rw [hf] at this
+    rw [hfr]; exact this
+
+/-- what is legal about one transmission, judged in the state `m'` the call left -/
+structure TxLegal (m m' : MacState) (frame : FrameKind) (limit : Nat) (t : TxOut) : Prop where
+  /-- the channel/data-rate pair the selection returned -/
+  tx : ∃ tx : TxChannel,
+    t.rf = rfOf tx.datarate tx.frequency ∧
+    getDatarate m.region.id tx.dr.toInt.toNat = some tx.datarate ∧
+    isUplinkDatarate m.region.id tx.dr.toInt.toNat = true ∧
+    ChannelLegal m'.region frame tx ∧
+    frequencyValid m.region.id tx.frequency = true
+  /-- conducted power: at most the limit handed in, at most the regional EIRP less antenna gain -/
+  pwLimit : t.pw ≤ limit
+  pwEirp : ∃ p0, txPowerAdjust m.region.id 0 = .ok (some p0) ∧ t.pw ≤ Rt.wrap .i8 p0 - m.antennaGain
+
+/-- **every data uplink handed to the radio is legal** (`Mac::send` in any well-formed, i.e. any
+reachable, state): the frequency is in band and is that of a channel defined and enabled in the
+plan the selection ended with, with the bandwidth of the channel; the data rate is one the region defines for uplinks; the conducted power
+is at most the radio's maximum, at most the level the network commanded, and at most the regional
+maximum EIRP less the antenna gain. -/
+theorem send_legal {σ} (g : Rng σ) (m m' : MacState) (data : List Nat) (fport : Nat) (conf : Bool) (rs rs' : σ)
+    (out : SendOut) (h : MacWF m) (hmp : m.maxPower ≤ 127)
+    (hs : macSend g m data fport conf rs = .ok (some out, m', rs')) :
+    TxLegal m m' .data m.maxPower out.tx ∧ (∀ p, m.cfg.txPower = some p → out.tx.pw ≤ p) := by
+  unfold macSend at hs
+  cases hst : m.st with
+  | joined s =>
+    simp only [hst] at hs
+    obtain ⟨⟨desc, s1⟩, _, hs1⟩ := Except.bind_eq_ok hs
+    clear hs
+    obtain ⟨dr, hdr, hs2⟩ := Except.bind_eq_ok hs1
+    clear hs1
+    obtain ⟨⟨tx, region, rs1⟩, hsel, hs3⟩ := Except.bind_eq_ok hs2
+    clear hs2
+    obtain ⟨pw, hpw, hs4⟩ := Except.bind_eq_ok hs3
+    clear hs3
+    obtain ⟨⟨rx1, rx2⟩, _, hs5⟩ := Except.bind_eq_ok hs4
+    clear hs4
+    simp only [pure, Except.pure, Except.ok.injEq, Prod.mk.injEq, Option.some.injEq] at hs5
+    obtain ⟨rfl, rfl, rfl⟩ := hs5
+    have hup := (drOfNat_uplink (cfgWF_iff.mp h.cfg).1).elim hdr
+    obtain ⟨hid, hg, hleg, hu⟩ := selectTxChannel_legal g m.region region dr .data rs rs1 tx h.region hsel
+    obtain ⟨hrw, _⟩ := (selectTxChannel_safe g m.region dr .data rs h.region hup).elim hsel
+    simp only at hrw hpw
+    have hib := legal_in_band region .data tx hrw hleg
+    rw [hid] at hib
+    cases htp : m.cfg.txPower with
+    | none =>
+      simp only [htp] at hpw
+      obtain ⟨hp1, p0, hp2, hp3⟩ := txPowerFor_le _ _ _ _ hmp hpw
+      rw [hid] at hp2
+      exact ⟨⟨⟨tx, rfl, hg, hu hup, hleg, hib⟩, hp1, ⟨p0, hp2, hp3⟩⟩, fun p hp => by cases hp⟩
+    | some p =>
+      simp only [htp] at hpw
+      have hmin1 : min p m.maxPower ≤ m.maxPower := Nat.min_le_right _ _
+      have hmin2 : min p m.maxPower ≤ p := Nat.min_le_left _ _
+      obtain ⟨hp1, p0, hp2, hp3⟩ := txPowerFor_le _ _ _ _ (by omega) hpw
+      rw [hid] at hp2
+      refine ⟨⟨⟨tx, rfl, hg, hu hup, hleg, hib⟩, ?_, ⟨p0, hp2, hp3⟩⟩, ?_⟩
+      · exact Int.le_trans hp1 (by exact_mod_cast hmin1)
+      · intro p' hp'
+        cases hp'
+        exact Int.le_trans hp1 (by exact_mod_cast hmin2)
+  | otaa o => simp [hst, pure, Except.pure] at hs
+  | unjoined => simp [hst, pure, Except.pure] at hs
+
+/-- **every join request handed to the radio is legal** (`Mac::join_otaa` in any well-formed
+state): sent in band on a join channel — dynamic plans: one of the default channels; fixed plans:
+one of the 72 channels with the data rate that channel mandates (DR0 on a 125 kHz channel, the
+region's 500 kHz join rate on channels 64–71) — at a power within the radio's maximum and the
+regional EIRP less antenna gain. -/
+theorem join_legal {σ} (g : Rng σ) (m m' : MacState) (rs rs' : σ) (out : JoinOut) (h : MacWF m) (hmp : m.maxPower ≤ 127)
+    (hs : macJoinOtaa g m rs = .ok (out, m', rs')) : TxLegal m m' .join m.maxPower out.tx := by
+  unfold macJoinOtaa at hs
+  simp only at hs
+  obtain ⟨dr, hdr, hs2⟩ := Except.bind_eq_ok hs
+  clear hs
+  obtain ⟨⟨tx, region, rs1⟩, hsel, hs3⟩ := Except.bind_eq_ok hs2
+  clear hs2
+  obtain ⟨pw, hpw, hs4⟩ := Except.bind_eq_ok hs3
+  clear hs3
+  obtain ⟨⟨rx1, rx2⟩, _, hs5⟩ := Except.bind_eq_ok hs4
+  clear hs4
+  simp only [pure, Except.pure, Except.ok.injEq, Prod.mk.injEq] at hs5
+  obtain ⟨rfl, rfl, rfl⟩ := hs5
+  have hup := (drOfNat_uplink (cfgWF_iff.mp h.cfg).1).elim hdr
+  obtain ⟨hid, hg, hleg, hu⟩ := selectTxChannel_legal g m.region region dr .join _ rs1 tx h.region hsel
+  obtain ⟨hrw, _⟩ := (selectTxChannel_safe g m.region dr .join _ h.region hup).elim hsel
+  simp only at hrw hpw
+  obtain ⟨hp1, p0, hp2, hp3⟩ := txPowerFor_le _ _ _ _ hmp hpw
+  have hib := legal_in_band region .join tx hrw hleg
+  rw [hid] at hib hp2
+  exact ⟨⟨tx, rfl, hg, hu hup, hleg, hib⟩, hp1, ⟨p0, hp2, hp3⟩⟩
+
+/-- **channel selection can always terminate**: in every well-formed (= every reachable) channel-plan
+state, for join and data frames, there is a draw value on which `select_tx_channel` returns at once
+and leaves a well-formed plan — the accept set of every retry loop it may enter is non-empty (after
+the fallback for dynamic plans and fixed masks; by the cyclic-walk invariant for the join channels).
+A loop can only fail to end by the generator never offering an accepted value. -/
+theorem select_accept_nonempty (rs : RegionState) (dr : DR) (frame : FrameKind) (h : regionWF rs = true)
+    (hdr : isUplinkDatarate rs.id dr.toInt.toNat = true) :
+    ∃ v, v < 64 ∧ ∀ {σ : Type} (s : σ),
+      Tot (selectTxChannel (constGen v) rs dr frame s) (fun r => regionWF r.2.1 = true ∧ r.2.1.id = rs.id) := by
+  obtain ⟨v, hv, hret⟩ := selectTxChannel_returns rs dr frame h hdr
+  exact ⟨v, hv, fun {σ} s => (selectTxChannel_safe (constGen v) rs dr frame s h hdr).to_tot (hret s)⟩
+
+/-! ## over histories -/
+
+/-- legality of what one step handed to the radio; `m` is the state the call was made in -/
+def OutLegal (r : RegionId) (maxPower : Nat) (gain : Int) : Out → Prop
+  | .up o _ _ => ∃ m m1, MacWF m ∧ m.region.id = r ∧ m.maxPower = maxPower ∧ m.antennaGain = gain ∧
+      TxLegal m m1 .data maxPower o.tx ∧ (∀ p, m.cfg.txPower = some p → o.tx.pw ≤ p)
+  | .join o _ => ∃ m m1, MacWF m ∧ m.region.id = r ∧ m.maxPower = maxPower ∧ m.antennaGain = gain ∧
+      TxLegal m m1 .join maxPower o.tx
+  | _ => True
+
+theorem step_legal {σ} (g : Rng σ) (m m' : MacState) (s s' : σ) (ev : Ev) (out : Out) (h : MacWF m) (hmp : m.maxPower ≤ 127)
+    (hs : step g (m, s) ev = .ok ((m', s'), out)) : OutLegal m.region.id m.maxPower m.antennaGain out := by
+  unfold step at hs
+  cases ev with
+  | joinAbp da nwk app =>
+    simp only [pure, Except.pure, Except.ok.injEq, Prod.mk.injEq] at hs
+    obtain ⟨_, rfl⟩ := hs; trivial
+  | setAdr on =>
+    simp only [pure, Except.pure, Except.ok.injEq, Prod.mk.injEq] at hs
+    obtain ⟨_, rfl⟩ := hs; trivial
+  | setDr dr =>
+    simp only [pure, Except.pure, Except.ok.injEq, Prod.mk.injEq] at hs
+    obtain ⟨_, rfl⟩ := hs; trivial
+  | rxc v snr mp =>
+    simp only at hs
+    obtain ⟨rf, _, hs1⟩ := Except.bind_eq_ok hs
+    obtain ⟨⟨o, m1⟩, _, hs2⟩ := Except.bind_eq_ok hs1
+    simp only [pure, Except.pure, Except.ok.injEq, Prod.mk.injEq] at hs2
+    obtain ⟨_, rfl⟩ := hs2; trivial
+  | joinOtaa fault rx1 rx2 mp1 mp2 =>
+    simp only at hs
+    obtain ⟨⟨o, m1, s1⟩, hj, hs1⟩ := Except.bind_eq_ok hs
+    have hl := join_legal g m m1 s s1 o h hmp hj
+    have hout : ∃ r, out = .join o r := by
+      cases fault with
+      | some k =>
+        simp only at hs1
+        obtain ⟨m2, _, hs2⟩ := Except.bind_eq_ok hs1
+        simp only [pure, Except.pure, Except.ok.injEq, Prod.mk.injEq] at hs2
+        exact ⟨_, hs2.2.symm⟩
+      | none =>
+        simp only at hs1
+        obtain ⟨⟨r, dl, m2⟩, _, hs2⟩ := Except.bind_eq_ok hs1
+        simp only [pure, Except.pure, Except.ok.injEq, Prod.mk.injEq] at hs2
+        exact ⟨_, hs2.2.symm⟩
+    obtain ⟨r, rfl⟩ := hout
+    exact ⟨m, m1, h, rfl, rfl, rfl, hl⟩
+  | uplink data fport conf fault rx1 rx2 mp1 mp2 =>
+    simp only at hs
+    obtain ⟨⟨o, m1, s1⟩, hsend, hs1⟩ := Except.bind_eq_ok hs
+    cases o with
+    | none =>
+      simp only [pure, Except.pure, Except.ok.injEq, Prod.mk.injEq] at hs1
+      obtain ⟨_, rfl⟩ := hs1; trivial
+    | some o =>
+      have hl := send_legal g m m1 data fport conf s s1 o h hmp hsend
+      have hout : ∃ r d, out = .up o r d := by
+        cases fault with
+        | some k =>
+          simp only at hs1
+          obtain ⟨m2, _, hs2⟩ := Except.bind_eq_ok hs1
+          simp only [pure, Except.pure, Except.ok.injEq, Prod.mk.injEq] at hs2
+          exact ⟨_, _, hs2.2.symm⟩
+        | none =>
+          simp only at hs1
+          obtain ⟨⟨r, dl, m2⟩, _, hs2⟩ := Except.bind_eq_ok hs1
+          simp only [pure, Except.pure, Except.ok.injEq, Prod.mk.injEq] at hs2
+          exact ⟨_, _, hs2.2.symm⟩
+      obtain ⟨r, d, rfl⟩ := hout
+      exact ⟨m, m1, h, rfl, rfl, rfl, hl.1, hl.2⟩
+
+/-- **every frame any history hands to the radio is legal**: from a well-formed state (the initial
+state of any region) along every history of valid events, every uplink and every join request was
+built in a well-formed state of the same board and satisfies `TxLegal` there. -/
+theorem history_tx_legal {σ} (g : Rng σ) (m : MacState) (s : σ) (evs : List Ev) (ms' : MacState × σ) (outs : List Out)
+    (h : MacWF m) (hmp : m.maxPower ≤ 127) (hv : ∀ ev ∈ evs, validEv m.region.id ev = true)
+    (hr : run g (m, s) evs = .ok (ms', outs)) : ∀ out ∈ outs, OutLegal m.region.id m.maxPower m.antennaGain out := by
+  induction evs generalizing m s outs ms' with
+  | nil =>
+    simp only [run, pure, Except.pure, Except.ok.injEq, Prod.mk.injEq] at hr
+    obtain ⟨_, rfl⟩ := hr
+    intro out ho; cases ho
+  | cons ev rest ih =>
+    unfold run at hr
+    obtain ⟨⟨⟨m1, s1⟩, o⟩, hstep, hr1⟩ := Except.bind_eq_ok hr
+    obtain ⟨⟨ms2, os⟩, hrun, hr2⟩ := Except.bind_eq_ok hr1
+    simp only [pure, Except.pure, Except.ok.injEq, Prod.mk.injEq] at hr2
+    obtain ⟨_, rfl⟩ := hr2
+    have hk : Keeps m m1 := (step_safe g m s ev h (hv ev List.mem_cons_self)).elim hstep
+    intro out ho
+    simp only [List.mem_cons] at ho
+    rcases ho with rfl | ho
+    · exact step_legal g m m1 s s1 ev out h hmp hstep
+    · have := ih m1 s1 ms2 os hk.1 (by rw [hk.2.2.2]; exact hmp)
+        (fun ev' he => by rw [hk.2.1]; exact hv ev' (List.mem_cons_of_mem _ he)) hrun out ho
+      rw [hk.2.1, hk.2.2.1, hk.2.2.2] at this
+      exact this
+
+
+/-! ### regression: the join bias no longer overrides the channel mask
+
+Before fix 89d4f41 a data uplink sent while `has_bias_and_not_exhausted()` held ignored the channel
+mask: after join (no CFList), a LinkADRReq disabling sub-band 2, re-join (no CFList: mask and bias
+survive), `send` went out on a channel of the disabled sub-band (found while proving `send_legal`,
+replayed on the real code, repaired).  `biasHistory` is that history; on the repaired model its last
+uplink uses a channel the mask enables (as `send_legal` proves in general). -/
+
+def lcg : Rng Nat := fun x => ((x * 1103515245 + 12345) / 65536, x * 1103515245 + 12345)
+
+def biasJoinAccept (da : Nat) : Option (RxView × Int) :=
+  some (.joinAccept { micOk := true, devAddr := da, dlSettings := 0, rxDelay := 1, cfList := none, nwkKey := 5, appKey := 6 }, 1)
+
+/-- LinkADRReq: keep data rate and power, ChMaskCntl 0, ChMask 0x00FF: channels 8..15 off -/
+def biasLinkAdr : Option (RxView × Int) :=
+  some (.data { len := 20, confirmed := false, fcnt16 := 0, micFcnt := some 0, fopts := [0x03, 0xFF, 0xFF, 0x00, 0x00],
+                fport := none, payload := [] }, 1)
+
+def biasHistory : List Ev :=
+  [ .joinOtaa none (biasJoinAccept 1) none 250 250,
+    .uplink [1] 1 false none biasLinkAdr none 250 250,
+    .joinOtaa none (biasJoinAccept 2) none 250 250,
+    .uplink [2] 1 false none none none 250 250 ]
+
+/-- US915, join bias on sub-band 2 with 3 retries, sub-band 2 masked off: the last data uplink of
+`biasHistory` goes out on an enabled channel outside sub-band 2 -/
+example :
+    (match run lcg (MacState.init ((RegionState.init .US915).setJoinBias 2 3) 30 0, 1) biasHistory with
+     | .ok ((m', _), outs) =>
+       (match outs.getLast? with
+        | some (.up so _ _) =>
+          (List.range 72).any (fun ch => (uplinkChannels .US915)[ch]? == some (so.tx.rf.frequency : Int) &&
+            (((channelMaskGet m'.region).isEnabled ch).toOption == some true) && !(8 ≤ ch && ch < 16))
+        | _ => false)
+     | .error _ => false) = true := by decide +kernel
+
 /-! non-vacuity -/
 example : ChanInv (RegionState.init .EU868) := init_chanInv _
 example : (txPowerFor .EU868 14 2).toOption = some 14 := by decide
 example : (txPowerFor .US915 30 (-3)).toOption = some 24 := by decide
 
+example : ∀ ev ∈ biasHistory, validEv .US915 ev = true := by decide +kernel
+example : MacWF (MacState.init ((RegionState.init .US915).setJoinBias 2 3) 30 0) := by decide
+/-- `send_legal` / `join_legal` apply: a well-formed state in which both calls return -/
+example : ((macJoinOtaa lcg (MacState.init (RegionState.init .EU868) 14 2) 1).toOption.isSome
+    && (macSend lcg (macJoinAbp (MacState.init (RegionState.init .AU915) 30 0) 1 2 3) [1] 1 false 1).toOption.isSome) = true := by
+  decide +kernel
+
 end C09
 
+#print axioms C09.selectTxChannel_legal
+#print axioms C09.legal_in_band
+#print axioms C09.send_legal
+#print axioms C09.join_legal
+#print axioms C09.history_tx_legal
+#print axioms C09.select_accept_nonempty
 #print axioms C09.dynJoinLoop_sound
 #print axioms C09.dynDataLoop_sound
 #print axioms C09.dynDataLoop_first
